@@ -174,3 +174,92 @@ func init() {
 		}
 	}
 }
+
+// shape.colvec (C09, C01, C03): a matrix is a sequence of Columns column
+// vectors, each with Rows components. A VectorType literal whose Size is taken
+// from a field of a MatrixType value describes either a column of that matrix
+// (Size: m.Rows - 24 sites: indexing a matrix, constructing / zero-filling /
+// converting it column by column, loading it from a buffer) or the result of
+// vector * matrix (Size: m.Columns - exactly one site, in the binary-operator
+// type resolver). Per function the number of Columns-sized literals is fixed:
+// a column typed with Columns is wrong for every non-square matrix.
+var colvecColumnsExpected = map[string]struct {
+	N      int
+	Reason string
+}{
+	"ir.resolveMulResultType": {1, "vector * matrix yields a vector with one component per matrix column"},
+}
+
+func (c *Ctx) runColVec(r *Report, rule string, pkgs func(string) bool) {
+	n := 0
+	type cnt struct {
+		rows, cols int
+		pos        string
+		colPos     []string
+	}
+	per := map[string]*cnt{}
+	var keys []string
+	for _, fn := range c.allFuncs() {
+		if !pkgs(fn.Pkg.Rel) {
+			continue
+		}
+		info := fn.Pkg.Info
+		ast.Inspect(fn.Decl.Body, func(nd ast.Node) bool {
+			lit, ok := nd.(*ast.CompositeLit)
+			if !ok {
+				return true
+			}
+			tv, ok := info.Types[lit]
+			if !ok || irTypeName(tv.Type) != "VectorType" {
+				return true
+			}
+			for _, el := range lit.Elts {
+				kv, ok := el.(*ast.KeyValueExpr)
+				if !ok {
+					continue
+				}
+				if id, ok := kv.Key.(*ast.Ident); !ok || id.Name != "Size" {
+					continue
+				}
+				se, ok := ast.Unparen(kv.Value).(*ast.SelectorExpr)
+				if !ok {
+					continue
+				}
+				xtv, ok := info.Types[se.X]
+				if !ok || irTypeName(xtv.Type) != "MatrixType" {
+					continue
+				}
+				k := per[fn.id()]
+				if k == nil {
+					k = &cnt{pos: c.pos(lit.Pos())}
+					per[fn.id()] = k
+					keys = append(keys, fn.id())
+				}
+				n++
+				switch se.Sel.Name {
+				case "Rows":
+					k.rows++
+				case "Columns":
+					k.cols++
+					k.colPos = append(k.colPos, c.pos(lit.Pos()))
+				}
+			}
+			return true
+		})
+	}
+	sort.Strings(keys)
+	for _, id := range keys {
+		k := per[id]
+		exp := colvecColumnsExpected[id]
+		cons := id + ":VectorType{Size}"
+		switch {
+		case k.cols == exp.N && exp.N == 0:
+			r.ok(rule, cons, k.pos, "")
+		case k.cols == exp.N:
+			r.exc(rule, cons, strings.Join(k.colPos, ","), exp.Reason)
+		default:
+			r.viol(rule, cons, strings.Join(append(k.colPos, k.pos), ","), id+" builds "+itoa(k.cols)+" vector type(s) sized by a matrix's Columns ("+itoa(exp.N)+" expected) and "+itoa(k.rows)+" sized by Rows: a column vector of a CxR matrix has R components, so every non-square matrix gets wrongly typed columns")
+		}
+	}
+	r.inst("shape.colvec", n)
+}
